@@ -235,7 +235,9 @@ func checkCopyArms(p *Prog, r *Report, cd *ssa.Function, cases map[string]*ssa.T
 			}
 			mut, _ := mutableShare(ts)
 			if !mut {
-				if v != val {
+				// the arm's binding, or - when several immutable kinds share one
+				// arm - the switch operand itself (the very same value)
+				if v != val && v != ta.X && mu.Value != ta.X {
 					good, why = false, "stores something other than the value of the arm"
 				}
 				return
@@ -296,6 +298,24 @@ func freshCopyOf(v, orig ssa.Value) bool {
 		return true
 	case *ssa.ChangeType:
 		return freshCopyOf(x.X, orig)
+	case *ssa.Call:
+		// a clone helper of the package: every result is a fresh make+copy of its parameter
+		if g := x.Common().StaticCallee(); g != nil && smallHelper(g) && len(g.Params) == 1 && len(x.Common().Args) == 1 {
+			n := 0
+			for _, b := range g.Blocks {
+				if ret, ok := b.Instrs[len(b.Instrs)-1].(*ssa.Return); ok && len(ret.Results) == 1 {
+					n++
+					if !freshCopyOf(ret.Results[0], g.Params[0]) {
+						return false
+					}
+				}
+			}
+			if n == 0 {
+				return false
+			}
+			a := x.Common().Args[0]
+			return a == orig || derivesFromValue(a, orig)
+		}
 	}
 	return false
 }
